@@ -213,7 +213,7 @@ func wire(o *hx.Opts, rep *hx.Report, rng *hx.Rng) {
 	c := w.Login("alice@example.com")
 	defer c.Close()
 	boxes := []string{"INBOX", "Sent", "Drafts", "Trash", "Spam"}
-	for _, n := range []string{"a", "a/b", "a/b/c", "B", "Ba", "aB/a", "x/y"} {
+	for _, n := range []string{"a", "a/b", "a/b/c", "B", "Ba", "aB/a", "x/y", "w/p/q/r"} {
 		if c.Cmd("CREATE " + n).OK() {
 			boxes = append(boxes, n)
 		}
@@ -233,7 +233,8 @@ func wire(o *hx.Opts, rep *hx.Report, rng *hx.Rng) {
 		all = append(all, n)
 	}
 	sort.Strings(all)
-	subs := []string{"INBOX", "a/b/c", "B", "x/y", "aB/a"}
+	// "w" and "w/p/q/r" are subscribed, the two levels between them are not: implied parents below a subscribed ancestor
+	subs := []string{"INBOX", "a/b/c", "B", "x/y", "aB/a", "w", "w/p/q/r"}
 	for _, s := range subs {
 		c.Cmd("SUBSCRIBE " + s)
 	}
@@ -258,9 +259,22 @@ func wire(o *hx.Opts, rep *hx.Report, rng *hx.Rng) {
 		n = len(pats) * len(refs)
 	}
 	var ops, impl []string
+	fixed := [][2]string{{"", "w/%"}, {"w/p/", "%"}, {"w", "%/%"}, {"", "%/%/%"}, {"w/", "%"}, {"", "w/%/%"}, {"w/", "*"}, {"", "%/%/%/%"}, {"a/", "%"}, {"", "a/%/%"}}
+	pats = append(pats, "w/%", "%/%/%", "w/*")
+	refs = append(refs, "w/", "w/p/")
+	n += len(fixed)
+	if o.Thorough {
+		n = len(pats)*len(refs) + len(fixed)
+	}
 	for i := 0; i < n; i++ {
-		p, r := pats[i%len(pats)], refs[(i/len(pats))%len(refs)]
-		if !o.Thorough {
+		var p, r string
+		switch {
+		case i < len(fixed):
+			r, p = fixed[i][0], fixed[i][1]
+		case o.Thorough:
+			j := i - len(fixed)
+			p, r = pats[j%len(pats)], refs[(j/len(pats))%len(refs)]
+		default:
 			p, r = rng.Pick(pats), rng.Pick(refs)
 		}
 		resp := c.Cmd(fmt.Sprintf("LIST %q %q", r, p))
